@@ -1,6 +1,7 @@
 (* C07 -- voltage frequency registration: the written header locates every tone. *)
 From Coq Require Import ZArith QArith.
 From SV Require Import Model.FreqReg Proofs.FreqReg Model.Stream Proofs.Stream.
+From SV Require Import Kernels.Gen10 Proofs.K10 Model.Stream.
 From SV Require Import Kernels.Gen07 Proofs.K07.
 Local Open Scope Q_scope.
 
@@ -57,6 +58,13 @@ Theorem c07_source_kernels : forall fch1 cbw start_chan nchans nants sr nb h,
   (raw_params_fch1 h start_chan nchans == src_raw_params_fch1 (OBSFREQ h / mhz) (CHAN_BW h / mhz) start_chan nchans)%Q.
 Proof. exact k07_all. Qed.
 Print Assumptions c07_source_kernels.
+
+(* the chirp written by the CURRENT source (Kernels/Gen10.v): its cosine argument is 2*pi times the phase in cycles whose central difference is the
+   instantaneous frequency of c07_chirp *)
+Theorem c07_source_chirp : forall f_start fch1 drift t phase pi asc,
+  (src_chirp_arg f_start fch1 drift t phase pi asc == 2 * pi * chirp_cycles f_start fch1 drift asc t + phase)%Q.
+Proof. exact k10_chirp. Qed.
+Print Assumptions c07_source_chirp.
 
 Example c07_example :
   let h := header (6000000000#1) (- (1000000#1)) 5 4 1 (64000000#1) 64 in
